@@ -72,4 +72,20 @@ theorem C02_job_accounting (inp : RunInput) (s : Sys) (hr : PReach inp s) (t : N
   have := (h3.w1 w t hw).2.1
   omega
 
+/-! ### non-vacuity -/
+
+/-- a shared dependency (`0` below `1`, `2`, `3`), a shared setup-task (`4` of `1` and `2`), `0` selected twice more;
+    three worker threads -/
+def exShared : RunInput :=
+  { taskDep := fun n => if n = 1 ∨ n = 2 ∨ n = 3 then [0] else []
+    calcDep := fun _ => []
+    setup := fun n => if n = 1 ∨ n = 2 then [4] else []
+    sel := [1, 0, 2, 3, 0], runner := .thread, numProc := 3 }
+
+/-- every task of the closure is started and reported (so "at most once" is about events that do occur), under a
+    schedule that keeps several workers busy -/
+example : ∃ s, PReach exShared s ∧ s.events.contains Ev.complete = true ∧
+    ((List.range 5).all fun t => s.events.countP (Ev.isStartOf t) == 1 && s.events.countP (Ev.isTerminalOf t) == 1) = true :=
+  ⟨_, autoRun_preach (by decide) false true 600 _ PReach.init, by decide +kernel⟩
+
 end DoitModel.C02
